@@ -41,6 +41,7 @@ def run(F, rep, tier):
     c03.ret_fold(F, rep)
     c03.defer_recorded(F, rep)
     c03.binder_typed(F, rep)
+    c03.type_names_are_not_values(F, rep)
     contradiction_info(F, rep)
 
 
